@@ -41,8 +41,8 @@ build_lib() {
     (
       flock 9
       if [ ! -f "$dir/libccl.a" ]; then
-        # keep at most one older tree per flavour (disk)
-        { ls -dt "$BUILD/$fl-"* 2>/dev/null || true; } | tail -n +2 | xargs -r rm -rf
+        # keep the most recent trees per flavour (disk); several agents / scratch worktrees may build concurrently
+        { ls -dt "$BUILD/$fl-"* 2>/dev/null || true; } | tail -n +"${VERIF_KEEP_TREES:-10}" | xargs -r rm -rf
         rm -rf "$dir"; mkdir -p "$dir/obj"
         local flags inc pids=() i=0
         flags="$(flags_for "$fl")"; inc="$(incflags)"
